@@ -973,6 +973,51 @@ Section Proofs.
   Qed.
   End Inv5.
 
+  (* ================================================================ invariant 10: the LAST edge of an artifact key
+     was decided by findMatch on the whole current requirement list of the key (requirement lists change only when
+     a declaration of the key is processed); holds for every pass, whatever the lists it starts from *)
+  Definition Inv10 (st : pst) : Prop :=
+    forall k, (forall ne, In ne (g_errs (s_g st)) -> ne_mk ne <> k) ->
+      forall es el, filter (on_k k) (g_edges (s_g st)) = es ++ [el] ->
+        exists m, find_match (reqs_of (s_reqs st) k) = Ok m /\ e_to el = v_vk m.
+
+  Lemma Inv10_add_edge st st' e m :
+    Inv10 st ->
+    (forall k', k' <> e_mk e -> reqs_of (s_reqs st') k' = reqs_of (s_reqs st) k') ->
+    find_match (reqs_of (s_reqs st') (e_mk e)) = Ok m -> e_to e = v_vk m ->
+    g_edges (s_g st') = g_edges (s_g st) ++ [e] -> g_errs (s_g st') = g_errs (s_g st) -> Inv10 st'.
+  Proof.
+    intros I10 Hoth Hfm Hto He Hr k Hnoerr es el. rewrite He, filter_snoc. rewrite Hr in Hnoerr.
+    unfold on_k at 2. destruct (mkey_dec (e_mk e) k) as [Ek|Nk].
+    - intros E. apply app_inj_tail in E. destruct E as [_ <-]. subst k. exists m. auto.
+    - rewrite app_nil_r. intros F. rewrite Hoth; auto. eapply I10; eauto.
+  Qed.
+
+  Lemma Inv10_dep first cur st d st' : Inv10 st -> dep_go first cur st d st' -> Inv10 st'.
+  Proof.
+    intros I10 Hgo.
+    assert (Hoth : forall k', k' <> dep_k d -> reqs_of (s_reqs (dep_st1 first st d)) k' = reqs_of (s_reqs st) k').
+    { intros k' N. unfold dep_st1; simpl. now apply note_req_other. }
+    inversion Hgo; subst; clear Hgo.
+    - exact I10.
+    - intros k Hnoerr es el F. simpl in *.
+      assert (Nk : k <> dep_k d).
+      { intros ->. apply (Hnoerr (mkNErr (n_vk cur) (dep_dvk first d) (dep_k d))); [apply in_or_app; simpl; auto | reflexivity]. }
+      rewrite (Hoth k Nk). eapply I10; eauto. intros ne Hne. apply Hnoerr. apply in_or_app; auto.
+    - apply (Inv10_add_edge st _ (dep_edge first cur d m EExisting) m); auto.
+    - apply (Inv10_add_edge st _ (dep_edge first cur d m EShared) m); auto.
+    - apply (Inv10_add_edge st _ (dep_edge first cur d m ECreated) m); auto.
+  Qed.
+
+  Lemma bfs_first_inv10 R0 fuel st' :
+    bfs fuel true mgt (init_st root R0) = (st', Go) -> Inv10 st'.
+  Proof.
+    intros H.
+    apply (lift_bfs_first Inv10 (fun _ _ _ => True)) with (fuel := fuel) (reqs := R0); auto.
+    - intros first cur st d st1 I10 _ Hok Hgo. split; [eapply Inv10_dep; eauto | exact I].
+    - intros k _ es el F. simpl in F. destruct es; discriminate.
+  Qed.
+
   (* ================================================================ all invariants together, for one pass *)
   Definition InvAll (R0 : reqmap) (st : pst) : Prop := Inv1 st /\ Inv3 st /\ Inv4 st /\ Inv5 R0 st.
   Definition CurAll (first : bool) (cur : node) (st : pst) : Prop := Cur1 first cur st /\ Cur3 cur st /\ Cur4 cur st.
@@ -1932,6 +1977,29 @@ Section Proofs.
       apply filter_In in In0. apply filter_In in In1. destruct In0 as [A0 B0]. destruct In1 as [A1 B1].
       unfold on_k in B0, B1. destruct (mkey_dec (e_mk e0) k); [|discriminate]. destruct (mkey_dec (e_mk e) k); [|discriminate].
       apply T; auto. congruence.
+  Qed.
+
+  (* for EVERY number of passes: the last edge of an artifact key points to what findMatch answers on the FINAL
+     requirement list of the key, and so does every other edge of the key that is not a shared-node edge *)
+  Lemma thm_final_list_decides fuel root R g :
+    resolve_full fuel root = (R, Ok g) ->
+    forall k, (forall ne, In ne (g_errs g) -> ne_mk ne <> k) ->
+    forall es el, filter (on_k k) (g_edges g) = es ++ [el] ->
+      exists m, find_match (reqs_of R k) = Ok m /\ e_to el = v_vk m /\
+                (e_kind el <> EShared -> forall e, In e es -> e_kind e <> EShared -> e_to e = v_vk m).
+  Proof.
+    intros F k Hnoerr es el Fil.
+    assert (Hres : resolve fuel root = Ok g) by (unfold MavenRes.resolve; now rewrite F).
+    destruct (resolve_full_ok _ _ _ _ F) as [Ra [W P]].
+    apply pass_ok_inv in P. destruct P as [ver [imps [st [A [B [C [D E]]]]]]]. subst g R.
+    destruct (bfs_first_inv10 _ _ _ _ _ C k Hnoerr es el Fil) as [m [Fm Hto]].
+    exists m. split; auto. split; auto. intros Kl e He Ke. rewrite <- Hto.
+    destruct (thm_one_version _ _ _ Hres) as [T _].
+    assert (In0 : In el (filter (on_k k) (g_edges (s_g st)))) by (rewrite Fil; apply in_or_app; simpl; auto).
+    assert (In1 : In e (filter (on_k k) (g_edges (s_g st)))) by (rewrite Fil; apply in_or_app; auto).
+    apply filter_In in In0. apply filter_In in In1. destruct In0 as [A0 B0]. destruct In1 as [A1 B1].
+    unfold on_k in B0, B1. destruct (mkey_dec (e_mk el) k); [|discriminate]. destruct (mkey_dec (e_mk e) k); [|discriminate].
+    apply T; auto. congruence.
   Qed.
 
   (* the retry loop: a pass only appends to the requirement lists *)
